@@ -366,6 +366,32 @@ theorem prerequisites_refuse_untouched (rest : List Mw) (rq : Req) (w : World)
       (w, .error (if rq.prereq = 1 then .notImplemented else .serverInternal)) := by
   rcases h with h | h <;> simp [common, runChain, runMw, hp, hpa, h]
 
+/-- what `extractJWK` decides: the world, the refusal, or the (account, key) it puts into the context -/
+def jwkOutcome (s : Step) : World × Except Rej (Option Account × Option (Nat × Nat)) :=
+  (s.1, match s.2 with | .error e => .error e | .ok c => .ok (c.acc, c.jwk))
+
+/-- **embedded_kid_ignored.** A "kid" member that the client puts inside the embedded jwk — for instance the
+    thumbprint of somebody else's account key — changes nothing: the key in context is the embedded key under its
+    own RFC 7638 thumbprint and the account in context is the account of THAT key (`ByJwk`), whatever the member says. -/
+theorem embedded_kid_ignored (w : World) (c : Ctx) (j : Jws) (k : Jwk) (m : Nat)
+    (hj : c.jws = some j) (hk : j.jwk = some k) :
+    jwkOutcome (extractJWK w { c with jws := some { j with jwk := some { k with kidMember := m } } }) =
+      jwkOutcome (extractJWK w c) := by
+  unfold jwkOutcome extractJWK
+  simp only [hj, hk]
+  by_cases h0 : j.nsigs = 0
+  · simp [h0]
+  by_cases hv : k.valid = true
+  · by_cases ht : k.thumb = 0
+    · simp [h0, hv, ht]
+    · cases ha : accByKey w k.thumb with
+      | none => simp [h0, hv, ht, ha]
+      | some a =>
+        by_cases hs : a.status = .valid
+        · simp [h0, hv, ht, ha, hs]
+        · simp [h0, hv, ht, ha, hs]
+  · simp [h0, hv]
+
 /-- whose key the request is checked against, per selector -/
 def signerProof (sel : Sel) (rq : Req) (w : World) (c : Ctx) : Prop :=
   match sel with
